@@ -62,6 +62,9 @@ def plan(tier, seed_value):
             specs.append({'kind': 'triples', 'alphabet': '05*',
                           'start': start,
                           'stop': min(n_triple, start + max(1, n_triple // 16))})
+    for offset in range(4):
+        specs.append({'kind': 'other_digits', 'offset': offset,
+                      'count': 800 if tier == 'thorough' else 60})
     shards = 16
     per = 3000 if tier == 'thorough' else 300
     for k in range(shards):
@@ -412,6 +415,42 @@ def check_clock(acc, case):
                  .format(text, clock_text(first)), payload)
 
 
+# ---- digits that are not ASCII ---------------------------------------------------------------
+OTHER_DIGITS = ['０１２３４５６７８９', '٠١٢٣٤٥٦٧٨٩', '०१२३४५६७८९']
+
+
+def check_other_digits(acc, pattern, alphabet, positions):
+    """A pattern written with decimal digits of another script: rejected, or
+    accepted with the meaning of its ASCII spelling - never accepted as a
+    pattern that matches no time."""
+    chars = list(pattern)
+    digit_positions = [i for i, c in enumerate(chars) if c.isdigit()]
+    chosen = [p for k, p in enumerate(digit_positions)
+              if positions == 'all' or k == positions % len(digit_positions)]
+    for position in chosen:
+        chars[position] = alphabet[int(chars[position])]
+    text = ''.join(chars)
+    case = {'kind': 'other-digits', 'pattern': pattern, 'text': text}
+    acc.case(key='digits:' + text, nontrivial=True,
+             labels=['non-ascii-digits'],
+             sample={'written': text, 'ascii': pattern}
+             if len(acc.samples) < 2 else None)
+    status, detail = _compile('time at {} on all'.format(text))
+    if status == 'crash':
+        acc.fail('other-digits:crash', '{!r}: {}'.format(text, detail), case)
+    elif status == 'accept':
+        tables = _tables('time at {} wait'.format(text))
+        want = frozenset(timepat.denotation(pattern))
+        if not isinstance(tables, list) or len(tables) != 1 or \
+                frozenset(tables[0]) != want:
+            acc.fail('other-digits:accepted-with-another-meaning',
+                     'time at {} is accepted but matches {} (written with '
+                     'ASCII digits, {} denotes {} minutes)'.format(
+                         text, _describe(want, frozenset(tables[0]))
+                         if isinstance(tables, list) and tables else tables,
+                         pattern, len(want)), case)
+
+
 def _nth_string(index, max_len):
     base = len(ALPHABET)
     for length in range(max_len + 1):
@@ -468,6 +507,14 @@ def run_shard(spec):
         def run(case):
             check_order(acc, case)
         run()
+    elif kind == 'other_digits':
+        patterns = [p for p in timepat.well_formed_patterns()
+                    if timepat.denotation(p) and any(c.isdigit() for c in p)]
+        step = max(1, len(patterns) // spec['count'])
+        for number, pattern in enumerate(patterns[spec['offset']::step]):
+            for alphabet in OTHER_DIGITS:
+                check_other_digits(acc, pattern, alphabet, 'all')
+                check_other_digits(acc, pattern, alphabet, number)
     elif kind == 'real_clock':
         @seed(spec['seed'])
         @_settings(spec['examples'])
@@ -504,6 +551,10 @@ def replay(case):
         check_table(acc, case['pattern'])
     elif kind == 'alts':
         check_alts(acc, tuple(case['patterns']), 'replay')
+    elif kind == 'other-digits':
+        digits = next(a for a in OTHER_DIGITS
+                      if any(c in a for c in case['text']))
+        check_other_digits(acc, case['pattern'], digits, 'all')
     elif kind == 'clock':
         check_clock(acc, case['case'])
     elif kind == 'order':
